@@ -13,9 +13,10 @@ import re._parser as _sre_parser  # reference: CPython's regex parser
 from sa.core import rule, AnalysisError
 from sa.pyindex import get_module, dotted, src, calls_in, try_fold, walk_no_nested
 from sa import flow
+from rules import _util_c16c19 as U
 from rules.provenance import (
-    ReachingDefs, bind_args, executes_before, strip_iter_wrappers,
-    template_tokens)
+    ReachingDefs as _BaseReachingDefs, bind_args, executes_before,
+    strip_iter_wrappers, template_tokens)
 
 EXPLANATION = (
     "Value-provenance rules (reaching definitions over the structured "
@@ -92,6 +93,32 @@ ASSUMPTIONS = [
 
 RUN = "pytype/tools/analyze_project/pytype_runner.py"
 LOADER = "pytype/imports_map_loader.py"
+RUNNER = "PytypeRunner"
+
+
+class ReachingDefs(_BaseReachingDefs):
+  """rules/provenance.ReachingDefs, plus: a generator expression that is the
+  iterable of a comprehension is consumed exactly when that comprehension is
+  (`tuple(x for x in (f(y) for y in ys) if x != d)`: the inner generator is
+  exhausted by the outer one, which `tuple` exhausts on the spot; a list / set
+  / dict comprehension exhausts its iterables while it is evaluated)."""
+
+  def _consumed_now(self, genexp):
+    if super()._consumed_now(genexp):
+      return True
+    par = self.parent.get(genexp)
+    if isinstance(par, ast.comprehension) and par.iter is genexp:
+      comp = self.parent.get(par)
+      if isinstance(comp, ast.GeneratorExp):
+        return self._consumed_now(comp)
+      return isinstance(comp, (ast.ListComp, ast.SetComp, ast.DictComp))
+    return False
+
+
+def _method(mod, name):
+  """`PytypeRunner().<name>` resolved through the module-local MRO (a method
+  may live in a module-local base class / mixin of PytypeRunner)."""
+  return U.method(mod, RUNNER, name)
 
 # Reference: ninja manual, "Lexical syntax": `$` followed by newline, space,
 # `:` or `$` are the only character escapes valid inside a path.
@@ -200,12 +227,12 @@ def _model(ctx):
 def _build_model(ctx):
   m = _Model()
   m.mod = mod = get_module(ctx, RUN)
-  m.sb = mod.func("PytypeRunner.setup_build")
+  m.sb = _method(mod, "setup_build")
   m.gim = mod.func("get_imports_map")
-  m.wbs = mod.func("PytypeRunner.write_build_statement")
-  m.wi = mod.func("PytypeRunner.write_imports")
-  m.wdp = mod.func("PytypeRunner.write_default_pyi")
-  m.ysm = mod.func("PytypeRunner.yield_sorted_modules")
+  m.wbs = _method(mod, "write_build_statement")
+  m.wi = _method(mod, "write_imports")
+  m.wdp = _method(mod, "write_default_pyi")
+  m.ysm = _method(mod, "yield_sorted_modules")
   m.rd_sb = ReachingDefs(mod, m.sb)
   m.gim_call = _one(calls_in(m.sb, name="get_imports_map"),
                     "call of get_imports_map in setup_build")
@@ -698,8 +725,33 @@ def r19_2(ctx):
             "not from a comprehension over the deps given to get_imports_map",
             {"origin": o.describe()})
     return
-  gen = comp.generators[0]
+  # A comprehension over a comprehension denotes the same elements as the
+  # flattened one: `e(x) for x in (f(y) for y in ys) if c(x)` is
+  # `e(f(y)) for y in ys if c(f(y))`.  Layers are peeled down to the innermost
+  # generator; a layer variable stands for the element expression of the layer
+  # it iterates over.
+  layers = [comp]
+  while True:
+    inner = strip_iter_wrappers(layers[-1].generators[0].iter)
+    if not isinstance(inner, (ast.GeneratorExp, ast.ListComp, ast.SetComp)):
+      break
+    if len(inner.generators) != 1:
+      raise AnalysisError(
+          "setup_build: the ninja deps iterate over a comprehension with several "
+          f"generators ({src(inner)[:60]})")
+    layers.append(inner)
+  gens = [c.generators[0] for c in layers]
+  gen = gens[-1]
   it = gen.iter
+
+  def denote(e):
+    while isinstance(e, ast.Name):
+      ds = rd.defs_of(e)
+      d = next(iter(ds)) if len(ds) == 1 else None
+      if d is None or d.kind != "comp" or d.path or d.node not in gens[:-1]:
+        break
+      e = layers[gens.index(d.node) + 1].elt
+    return e
   same = isinstance(it, ast.Name) and rd.defs_of(it) == a_defs \
       and _is_loop_binding(m, a_defs)
   ctx.check(same, "setup_build:ninja-deps-same-binding", RUN, comp.lineno,
@@ -715,6 +767,7 @@ def r19_2(ctx):
   elt = comp.elt
 
   def is_out_read(e):
+    e = denote(e)
     return isinstance(e, ast.Subscript) and isinstance(e.value, ast.Name) \
         and rd.defs_of(e.value) == {m.out_def} and isinstance(e.slice, ast.Name) \
         and isinstance(var, ast.Name) and e.slice.id == var.id \
@@ -722,11 +775,11 @@ def r19_2(ctx):
   ctx.check(is_out_read(elt), "setup_build:ninja-deps-are-outputs", RUN,
             elt.lineno,
             f"each ninja dependency must be {m.out_def.name}[m] for the "
-            f"iterated m (subscript, KeyError when missing); found {src(elt)}",
-            {"element": src(elt)})
+            f"iterated m (subscript, KeyError when missing); found {src(denote(elt))}",
+            {"element": src(denote(elt))})
   # filters: only `module_to_output[m] != default_output`
   conds = []
-  for c in gen.ifs:
+  for c in [c for g in gens for c in g.ifs]:
     conds.extend(c.values if isinstance(c, ast.BoolOp) and isinstance(c.op, ast.And)
                  else [c])
   bad_f = []
@@ -937,6 +990,61 @@ def _possible_stages(m, rd, stmt, stages, extra=()):
   return poss, seen
 
 
+def _comp_tuple_len(e):
+  """Length of the tuples a list-building expression produces, or None."""
+  e = e.args[0] if isinstance(e, ast.Call) and dotted(e.func) == "list" \
+      and len(e.args) == 1 and not e.keywords else e
+  if isinstance(e, (ast.ListComp, ast.GeneratorExp)) and isinstance(e.elt, ast.Tuple) \
+      and not any(isinstance(x, ast.Starred) for x in e.elt.elts):
+    return len(e.elt.elts)
+  return None
+
+
+def _list_elem_len(mod, rd, fn, d, depth=2):
+  """Length of the tuples held by the list bound by `d`: a list created empty
+  and filled by `append((..))`, a list comprehension (or list(<genexp>)) of
+  tuples, or the result of a module-local helper / method of the runner that
+  returns such a list.  None = not understood."""
+  if d.kind != "assign" or d.path:
+    return None
+  lens = set()
+  if _empty_list(d.value):
+    pass
+  elif _comp_tuple_len(d.value) is not None:
+    lens.add(_comp_tuple_len(d.value))
+  elif isinstance(d.value, ast.Call) and depth > 0:
+    callee = U.callee_of(mod, d.value, cls=RUNNER)
+    if callee is None or any(isinstance(n, (ast.Yield, ast.YieldFrom))
+                             for n in walk_no_nested(callee)):
+      return None
+    crd = ReachingDefs(mod, callee)
+    rets = [n for n in walk_no_nested(callee) if isinstance(n, ast.Return)]
+    if not rets:
+      return None
+    for r in rets:
+      if r.value is None:
+        return None
+      n = _comp_tuple_len(r.value)
+      if n is None and isinstance(r.value, ast.Name):
+        ds = crd.defs_of(r.value)
+        n = _list_elem_len(mod, crd, callee, next(iter(ds)), depth - 1) if len(ds) == 1 else None
+      if n is None:
+        return None
+      lens.add(n)
+  else:
+    return None
+  for use in _uses_of(rd, fn, d):
+    kind, node = _classify(mod, use)
+    if kind == "method:append" and len(node.args) == 1 and isinstance(
+        node.args[0], ast.Tuple):
+      lens.add(len(node.args[0].elts))
+    elif kind in ("read", "iterate", "arg", "contains", "return"):
+      continue
+    else:
+      raise AnalysisError(f"yield: list {d.name} used as {kind}")
+  return lens.pop() if len(lens) == 1 else None
+
+
 def _tuple_shape(mod, rd, fn, expr):
   """Element expressions of a tuple-valued expression (None = unknown elt)."""
   if isinstance(expr, ast.Tuple):
@@ -947,19 +1055,9 @@ def _tuple_shape(mod, rd, fn, expr):
     return _tuple_shape(mod, rd, fn, expr.left) + _tuple_shape(mod, rd, fn, expr.right)
   if isinstance(expr, ast.Subscript) and isinstance(expr.value, ast.Name):
     d = rd.single_def(expr.value, "list of pending modules")
-    if d.kind == "assign" and _empty_list(d.value):
-      lens = set()
-      for use in _uses_of(rd, fn, d):
-        kind, node = _classify(mod, use)
-        if kind == "method:append" and len(node.args) == 1 and isinstance(
-            node.args[0], ast.Tuple):
-          lens.add(len(node.args[0].elts))
-        elif kind in ("read", "iterate", "arg", "contains"):
-          continue
-        else:
-          raise AnalysisError(f"yield: list {d.name} used as {kind}")
-      if len(lens) == 1:
-        return [None] * lens.pop()
+    n = _list_elem_len(mod, rd, fn, d)
+    if n is not None:
+      return [None] * n
   raise AnalysisError(f"yield: cannot determine the tuple shape of {src(expr)}")
 
 
@@ -1074,77 +1172,133 @@ def _r19_3_yields(ctx, m, stages):
 
   # must-mode facts: ("ok", name) = name is certainly not Action.CHECK
   def check_test(t):
+    """(name, polarity): `t` is true (polarity True) / false exactly when
+    name == Action.CHECK."""
+    if isinstance(t, ast.UnaryOp) and isinstance(t.op, ast.Not):
+      r = check_test(t.operand)
+      return (r[0], not r[1]) if r else None
     if isinstance(t, ast.Compare) and len(t.ops) == 1 and isinstance(
-        t.ops[0], (ast.Eq, ast.Is)):
+        t.ops[0], (ast.Eq, ast.Is, ast.NotEq, ast.IsNot)):
       for a, b in ((t.left, t.comparators[0]), (t.comparators[0], t.left)):
         if isinstance(a, ast.Name) and _fold_attr(mod, b) == check_val:
-          return a.id
+          return a.id, isinstance(t.ops[0], (ast.Eq, ast.Is))
     return None
 
-  def gen(unit):
-    out = []
-    par = mod.parent.get(unit)
-    if isinstance(par, ast.If) and par.test is unit:
-      nm = check_test(unit)
-      if nm and len(par.body) == 1 and isinstance(par.body[0], ast.Assign) \
-          and [dotted(t) for t in par.body[0].targets] == [nm]:
-        out.append(("ok", nm))
-    if isinstance(unit, ast.Assign) and len(unit.targets) == 1 and isinstance(
-        unit.targets[0], ast.Name):
-      v = _fold_attr(mod, unit.value)
-      if v is _NOFOLD:
-        out.append(("idiom", unit.targets[0].id))
-      elif v != check_val:
-        out.append(("ok", unit.targets[0].id))
-    return out
-
-  def kill(unit):
-    names = {d.name for d in rd._defs_of_unit(unit)}
-    return (lambda f: f[1] in names) if names else None
-  must = flow.flow(fn, gen, kill, mode="must")
-  may_idiom = flow.flow(fn, gen, kill, mode="may")
-
-  yields = [n for n in walk_no_nested(fn) if isinstance(n, ast.Yield)]
-  if not yields:
-    raise AnalysisError("yield_sorted_modules yields nothing")
   counts = {}
-  for y in yields:
-    if y.value is None:
-      raise AnalysisError("bare yield in yield_sorted_modules")
-    shape = _tuple_shape(mod, rd, fn, y.value)
-    st_e = shape[pos_stage] if len(shape) > pos_stage else None
-    stage = _stage_of(mod, st_e, stages) if st_e is not None else None
-    counts[stage] = counts.get(stage, 0) + 1
-    tag = f"{stage}#{counts[stage]}" if counts[stage] > 1 else str(stage)
-    ok = len(shape) == m.arity and stage is not None
-    ctx.check(ok, f"yield_sorted_modules:yield-shape:{tag}", RUN, y.lineno,
-              f"yield of {len(shape)} elements with {src(st_e) if st_e is not None else '?'} "
-              f"at position {pos_stage}; setup_build unpacks {m.arity} "
-              "elements and reads the stage there",
-              {"elements": [src(e) if e is not None else "?" for e in shape]})
-    if not ok:
-      continue
-    ystmt = rd.stmt_of(y)
-    if stage == "FIRST_PASS":
-      act = shape[pos_action]
-      if not isinstance(act, ast.Name):
-        raise AnalysisError("FIRST_PASS yield: action element is not a name")
-      st = must.before.get(ystmt)
-      if st is None:
-        raise AnalysisError("FIRST_PASS yield is unreachable")
-      good = ("ok", act.id) in st
-      if not good and ("idiom", act.id) in (may_idiom.before.get(ystmt) or ()):
-        raise AnalysisError(
-            "FIRST_PASS yield: the action is rebound by an expression the "
-            "rule cannot evaluate")
-      ctx.check(good, f"yield_sorted_modules:first-pass-never-checks:{tag}", RUN,
-                y.lineno,
-                "a FIRST_PASS step can be yielded with action CHECK: the first "
-                "pass over a cycle runs without its peers' stubs and must "
-                "only infer (CHECK -> INFER rewrite must dominate the yield)",
-                {"action_defs": sorted(d.describe() for d in rd.defs_of(act))})
-    if stage == "SECOND_PASS":
-      _second_pass_deps(ctx, m, rd, fn, y, ystmt, shape, pos_deps, pos_module, tag)
+
+  def analyse(fn, depth):
+    """Judges the yields of generator `fn`; `yield from self.<helper>(..)` /
+    `yield from <module-level generator>(..)` is followed (the delegate's items
+    are yielded as they are)."""
+    rd = ReachingDefs(mod, fn)
+
+    def never_check(e, unit, prev, known=()):
+      """True: the value is certainly not CHECK; False: it may be; None: the
+      expression is outside what is evaluated here."""
+      v = _fold_attr(mod, e)
+      if v is not _NOFOLD:
+        return v != check_val
+      if isinstance(e, ast.Name):
+        if e.id in known:
+          return True
+        if prev is None:
+          return None
+        st = prev.before.get(unit)
+        return None if st is None else ("ok", e.id) in st
+      if isinstance(e, ast.IfExp):
+        t = check_test(e.test)
+        if t is None:
+          return None
+        nm, pol = t
+        is_check, not_check = (e.body, e.orelse) if pol else (e.orelse, e.body)
+        # in the arm where nm == CHECK only a constant helps; in the other arm
+        # nm itself is known not to be CHECK
+        r1 = never_check(is_check, unit, prev, known)
+        r2 = never_check(not_check, unit, prev, tuple(known) + (nm,))
+        if r1 is None or r2 is None:
+          return None
+        return r1 and r2
+      return None
+
+    def make_gen(prev):
+      def gen(unit):
+        out = []
+        par = mod.parent.get(unit)
+        if isinstance(par, ast.If) and par.test is unit:
+          t = check_test(unit)
+          if t and t[1] and len(par.body) == 1 and isinstance(par.body[0], ast.Assign) \
+              and [dotted(x) for x in par.body[0].targets] == [t[0]]:
+            out.append(("ok", t[0]))
+        if isinstance(unit, ast.Assign) and len(unit.targets) == 1 and isinstance(
+            unit.targets[0], ast.Name):
+          r = never_check(unit.value, unit, prev)
+          if r is None:
+            out.append(("idiom", unit.targets[0].id))
+          elif r:
+            out.append(("ok", unit.targets[0].id))
+        return out
+      return gen
+
+    def kill(unit):
+      names = {d.name for d in rd._defs_of_unit(unit)}
+      return (lambda f: f[1] in names) if names else None
+    # pass 1 knows constants and conditional expressions; pass 2 also follows
+    # plain copies `x = y` using what pass 1 established about y
+    first = flow.flow(fn, make_gen(None), kill, mode="must")
+    must = flow.flow(fn, make_gen(first), kill, mode="must")
+    may_idiom = flow.flow(fn, make_gen(first), kill, mode="may")
+
+    yields = [n for n in walk_no_nested(fn) if isinstance(n, (ast.Yield, ast.YieldFrom))]
+    if not yields:
+      raise AnalysisError(f"{fn.name} yields nothing")
+    for y in yields:
+      if isinstance(y, ast.YieldFrom):
+        callee = U.callee_of(mod, y.value, cls=RUNNER) if isinstance(y.value, ast.Call) else None
+        if callee is None or depth <= 0 or callee is fn:
+          raise AnalysisError(
+              f"{fn.name}: `yield from {src(y.value)[:60]}` does not delegate to a "
+              "generator of this module that can be followed")
+        analyse(callee, depth - 1)
+        continue
+      if y.value is None:
+        raise AnalysisError(f"bare yield in {fn.name}")
+      shape = _tuple_shape(mod, rd, fn, y.value)
+      st_e = shape[pos_stage] if len(shape) > pos_stage else None
+      stage = _stage_of(mod, st_e, stages) if st_e is not None else None
+      counts[stage] = counts.get(stage, 0) + 1
+      tag = f"{stage}#{counts[stage]}" if counts[stage] > 1 else str(stage)
+      ok = len(shape) == m.arity and stage is not None
+      ctx.check(ok, f"yield_sorted_modules:yield-shape:{tag}", RUN, y.lineno,
+                f"yield of {len(shape)} elements with {src(st_e) if st_e is not None else '?'} "
+                f"at position {pos_stage}; setup_build unpacks {m.arity} "
+                "elements and reads the stage there",
+                {"elements": [src(e) if e is not None else "?" for e in shape],
+                 "in": fn.name})
+      if not ok:
+        continue
+      ystmt = rd.stmt_of(y)
+      if stage == "FIRST_PASS":
+        act = shape[pos_action]
+        if not isinstance(act, ast.Name):
+          raise AnalysisError("FIRST_PASS yield: action element is not a name")
+        st = must.before.get(ystmt)
+        if st is None:
+          raise AnalysisError("FIRST_PASS yield is unreachable")
+        good = ("ok", act.id) in st
+        if not good and ("idiom", act.id) in (may_idiom.before.get(ystmt) or ()):
+          raise AnalysisError(
+              "FIRST_PASS yield: the action is rebound by an expression the "
+              "rule cannot evaluate")
+        ctx.check(good, f"yield_sorted_modules:first-pass-never-checks:{tag}", RUN,
+                  y.lineno,
+                  "a FIRST_PASS step can be yielded with action CHECK: the first "
+                  "pass over a cycle runs without its peers' stubs and must "
+                  "only infer (CHECK -> INFER rewrite must dominate the yield)",
+                  {"action_defs": sorted(d.describe() for d in rd.defs_of(act))})
+      if stage == "SECOND_PASS":
+        _second_pass_deps(ctx, m, rd, fn, y, ystmt, shape, pos_deps, pos_module, tag)
+
+  analyse(fn, 2)
   for need in ("SINGLE_PASS", "FIRST_PASS", "SECOND_PASS"):
     if need not in counts:
       raise AnalysisError(f"yield_sorted_modules: no {need} yield")
@@ -1166,6 +1320,32 @@ def _second_pass_deps(ctx, m, rd, fn, y, ystmt, shape, pos_deps, pos_module, tag
             f"(bindings reaching the yield: {facts['deps_defs']})", facts)
     return
   src_list = strip_iter_wrappers(d.value)
+  if isinstance(src_list, (ast.GeneratorExp, ast.ListComp)):
+    # `deps += tuple(module for module, _ in modules)`: the extension is the
+    # module of EVERY element of the list the SECOND_PASS loop walks
+    loop2 = mod.parent.get(ystmt)
+    while loop2 is not None and not isinstance(loop2, ast.For):
+      loop2 = mod.parent.get(loop2)
+    if loop2 is None or not isinstance(loop2.iter, ast.Name):
+      raise AnalysisError("SECOND_PASS yield is not inside a loop over a local list")
+    g = src_list.generators[0]
+    elt = src_list.elt
+    eds = rd.defs_of(elt) if isinstance(elt, ast.Name) else frozenset()
+    ed = next(iter(eds)) if len(eds) == 1 else None
+    whole = len(src_list.generators) == 1 and not g.ifs and isinstance(g.iter, ast.Name) \
+        and rd.defs_of(g.iter) == rd.defs_of(loop2.iter) \
+        and ed is not None and ed.kind == "comp" and ed.node is g and ed.path == (pos_module,)
+    facts["extension"] = {"comprehension": src(src_list)[:80],
+                          "same_module_list": isinstance(g.iter, ast.Name)
+                          and rd.defs_of(g.iter) == rd.defs_of(loop2.iter),
+                          "filters": [src(c) for c in g.ifs]}
+    aug_before = executes_before(mod, fn, lambda u: u is d.node, ystmt)
+    ctx.check(whole and aug_before, construct, RUN, y.lineno,
+              "second-pass deps: "
+              + ("the extension does not dominate the yield" if whole else
+                 f"`{src(src_list)[:70]}` is not the module of every element of the "
+                 "list of cycle modules the SECOND_PASS loop walks"), facts)
+    return
   if not isinstance(src_list, ast.Name):
     raise AnalysisError("SECOND_PASS: deps extension is not built from a local list")
   ld = rd.single_def(src_list, "second-pass deps list")
@@ -1633,9 +1813,12 @@ def r19_4(ctx):
   for name, expr in bs.vars.items():
     inner = _escape_args(rdw, expr)
     names = set()
-    for n in ast.walk(expr):
-      if isinstance(n, ast.Name) and rdw.defs_of(n) == {rdw.params[m.w_imports]}:
-        names.add(n.id)
+    for o in rdw.origins(expr):   # through hoisted locals (`x = escape(imports)`)
+      if o.kind == "param" and o.d is rdw.params[m.w_imports]:
+        names.add(o.d.name)
+      for n in ast.walk(o.expr) if o.expr is not None else ():
+        if isinstance(n, ast.Name) and rdw.defs_of(n) == {rdw.params[m.w_imports]}:
+          names.add(n.id)
     if names:
       imports_var = name
   if imports_var is None:
@@ -1857,7 +2040,7 @@ def r19_6(ctx):
   """`$` variables of the pytype-single command are those the build line sets."""
   m = _model(ctx)
   mod, bs, rdw = m.mod, m.build_stmt, m.rd_wbs
-  fn = mod.func("PytypeRunner.get_pytype_command_for_ninja")
+  fn = _method(mod, "get_pytype_command_for_ninja")
   rd = ReachingDefs(mod, fn)
   # flag -> value table: dict literals bound in the function
   table = {}
@@ -1943,7 +2126,7 @@ def r19_7(ctx):
   """The plan is complete, in one file, before ninja starts."""
   m = _model(ctx)
   mod = m.mod
-  pre = mod.func("PytypeRunner.write_ninja_preamble")
+  pre = _method(mod, "write_ninja_preamble")
   for fn, label, want in ((pre, "write_ninja_preamble", "w"),
                           (m.wbs, "write_build_statement", "a")):
     opens = _open_of_write(mod, fn, label)
@@ -1982,7 +2165,7 @@ def r19_7(ctx):
             "make_imports_dir must run before the default stub and the "
             "imports files are written into that directory")
   # run(): the plan is written before ninja runs
-  run = mod.func("PytypeRunner.run")
+  run = _method(mod, "run")
   builds = [c for c in calls_in(run) if _self_method(c) == "build"]
   b = _one(builds, "self.build() call in run")
   ctx.check(executes_before(mod, run, calls("setup_build"), mod.enclosing_stmt(b)),
@@ -2060,6 +2243,88 @@ _PLAN_RENAMED = """      step_map = get_imports_map(deps, module_to_imports_map,
 
 _ESC_RET = "  return re.sub(r'(?P<char>[\\n :$])', r'$\\g<char>', path)\n"
 _ESC_DEF = "def escape_ninja_path(path: str):\n"
+
+
+# -- refactored shapes (behaviour-preserving, see benign/C19-r*) used by variants ----
+
+_YSM_OLD = """      modules = []
+      for module in group:
+        action = self.get_module_action(module)
+        if action:
+          modules.append((module, action))
+      if len(modules) == 1:
+        yield modules[0] + (deps, Stage.SINGLE_PASS)
+      else:
+        # If we have a cycle we run pytype over the files twice. So that we
+        # don't fail on missing dependencies, we'll ignore errors the first
+        # time and add the cycle itself to the dependencies the second time.
+        second_pass_deps = []
+        for module, action in modules:
+          second_pass_deps.append(module)
+          if action == Action.CHECK:
+            action = Action.INFER
+          yield module, action, deps, Stage.FIRST_PASS
+        deps += tuple(second_pass_deps)
+        for module, action in modules:
+          # We don't need to run generate_default twice
+          if action != Action.GENERATE_DEFAULT:
+            yield module, action, deps, Stage.SECOND_PASS
+"""
+
+
+def _ysm_split(elt="(module, action)",
+               first="Action.INFER if action == Action.CHECK else action",
+               ext="    deps += tuple(module for module, _ in modules)\n"):
+  """yield_sorted_modules split into _get_group_actions (list comprehension
+  with a walrus) and the delegate generator _yield_two_passes (C19-r1)."""
+  return [
+      (RUN, _YSM_OLD,
+       "      modules = self._get_group_actions(group)\n"
+       "      if len(modules) == 1:\n"
+       "        yield modules[0] + (deps, Stage.SINGLE_PASS)\n"
+       "      else:\n"
+       "        yield from self._yield_two_passes(modules, deps)\n"),
+      (RUN, "  def yield_sorted_modules(\n",
+       "  def _get_group_actions(self, group):\n"
+       f"    return [\n        {elt}\n        for module in group\n"
+       "        if (action := self.get_module_action(module))\n    ]\n\n"
+       "  def _yield_two_passes(self, modules, deps):\n"
+       "    for module, action in modules:\n"
+       f"      first_pass_action = {first}\n"
+       "      yield module, first_pass_action, deps, Stage.FIRST_PASS\n"
+       + ext +
+       "    for module, action in modules:\n"
+       "      if action != Action.GENERATE_DEFAULT:\n"
+       "        yield module, action, deps, Stage.SECOND_PASS\n\n"
+       "  def yield_sorted_modules(\n")]
+
+
+# the file-writing methods end up in a module-local base class (C19-r4): the
+# class is cut in two at get_module_action, the upper half becomes the base
+_SUBCLASS_HEAD = ("class PytypeRunner(_BuildFilesWriter):\n"
+                  "  \"\"\"Runs pytype over an import graph.\"\"\"\n\n")
+_CUT_AT = "  def get_module_action(self, module):\n"
+_BASE_CLASS_SPLIT = [
+    (RUN, "class PytypeRunner:\n", "class _BuildFilesWriter:\n"),
+    (RUN, _CUT_AT, _SUBCLASS_HEAD + _CUT_AT),
+]
+
+_PLAN_DEPS_OLD = ("      deps = tuple(module_to_output[m] for m in deps\n"
+                  "                   if module_to_output[m] != default_output)\n"
+                  "      module_to_output[module] = self.write_build_statement(\n"
+                  "          module, action, deps, imports, suffix)")
+
+
+def _plan_layered(inner="module_to_output[dep] for dep in deps",
+                  cond="dep_output != default_output", elt="dep_output"):
+  """the ninja deps built by a comprehension over a generator (C19-r2)."""
+  return (RUN, _PLAN_DEPS_OLD,
+          "      dep_outputs = tuple(\n"
+          f"          {elt}\n"
+          f"          for dep_output in ({inner})\n"
+          f"          if {cond})\n"
+          "      module_to_output[module] = self.write_build_statement(\n"
+          "          module, action, dep_outputs, imports, suffix)")
 
 
 def _v(name, rid, old, new, expect="fire", file=RUN):
@@ -2333,4 +2598,72 @@ VARIANTS = [
     _v("twin-preamble-after-independent-init", "R19.7",
        "    self.write_ninja_preamble()\n    files = set()",
        "    files = set()\n    self.write_ninja_preamble()", "silent"),
+    # -- behaviour-preserving refactorings (whole patches) must stay silent
+    {"name": "twin-benign-C19-r1-split-yield-sorted-modules", "rule": "R19.3",
+     "patch": "benign/C19-r1/patch.diff", "expect": "silent"},
+    {"name": "twin-benign-C19-r2-restructured-setup-build", "rule": "R19.2",
+     "patch": "benign/C19-r2/patch.diff", "expect": "silent"},
+    {"name": "twin-benign-C19-r3-deps-helpers", "rule": "R19.1",
+     "patch": "benign/C19-r3/patch.diff", "expect": "silent"},
+    {"name": "twin-benign-C19-r4-writer-base-class", "rule": "R19.1",
+     "patch": "benign/C19-r4/patch.diff", "expect": "silent"},
+    # -- the same defects, seeded into the refactored shapes
+    {"name": "twin-yield-sorted-modules-split", "rule": "R19.3", "expect": "silent",
+     "edits": _ysm_split()},
+    {"name": "twin-split-first-pass-action-negated-test", "rule": "R19.3", "expect": "silent",
+     "edits": _ysm_split(first="action if action != Action.CHECK else Action.INFER")},
+    {"name": "split-first-pass-still-checks", "rule": "R19.3", "expect": "fire",
+     "edits": _ysm_split(first="action")},
+    {"name": "split-first-pass-rewrites-the-wrong-action", "rule": "R19.3", "expect": "fire",
+     "edits": _ysm_split(first="Action.CHECK if action == Action.CHECK else action")},
+    {"name": "split-first-pass-action-not-evaluated", "rule": "R19.3", "expect": "error",
+     "edits": _ysm_split(first="self.first_pass_action(action)")},
+    {"name": "split-second-pass-deps-only-checked-modules", "rule": "R19.3", "expect": "fire",
+     "edits": _ysm_split(ext="    deps += tuple(module for module, action in modules\n"
+                             "                  if action == Action.CHECK)\n")},
+    {"name": "split-second-pass-deps-extended-by-actions", "rule": "R19.3", "expect": "fire",
+     "edits": _ysm_split(ext="    deps += tuple(action for _, action in modules)\n")},
+    {"name": "split-second-pass-deps-not-extended", "rule": "R19.3", "expect": "fire",
+     "edits": _ysm_split(ext="")},
+    {"name": "split-group-actions-yield-triples", "rule": "R19.3", "expect": "fire",
+     "edits": _ysm_split(elt="(module, action, group)")},
+    {"name": "twin-ninja-deps-through-nested-generator", "rule": "R19.2", "expect": "silent",
+     "edits": [_plan_layered()]},
+    {"name": "nested-generator-skips-first-dep", "rule": "R19.2", "expect": "fire",
+     "edits": [_plan_layered(inner="module_to_output[dep] for dep in deps[1:]")]},
+    {"name": "nested-generator-reads-with-get", "rule": "R19.2", "expect": "fire",
+     "edits": [_plan_layered(inner="module_to_output.get(dep) for dep in deps")]},
+    {"name": "nested-generator-inner-filter", "rule": "R19.2", "expect": "fire",
+     "edits": [_plan_layered(
+         inner="module_to_output[dep] for dep in deps if dep.full_path in files")]},
+    {"name": "nested-generator-outer-filter-drops-more", "rule": "R19.2", "expect": "fire",
+     "edits": [_plan_layered(
+         cond="dep_output != default_output and dep_output.endswith('.pyi')")]},
+    {"name": "nested-generator-element-escaped-early", "rule": "R19.2", "expect": "fire",
+     "edits": [_plan_layered(elt="imports")]},
+    {"name": "twin-writer-methods-in-local-base-class", "rule": "R19.1", "expect": "silent",
+     "edits": _BASE_CLASS_SPLIT},
+    {"name": "base-class-build-statement-returns-imports", "rule": "R19.1", "expect": "fire",
+     "edits": _BASE_CLASS_SPLIT + [
+               (RUN, "                  module=module.name))\n    return output",
+                "                  module=module.name))\n    return imports")]},
+    {"name": "base-class-preamble-appends", "rule": "R19.7", "expect": "fire",
+     "edits": _BASE_CLASS_SPLIT + [
+               (RUN, "    with open(self.ninja_file, 'w') as f:",
+                "    with open(self.ninja_file, 'a') as f:")]},
+    # the subclass overrides a writer of the base: the override is what runs
+    {"name": "subclass-overrides-write-default-pyi", "rule": "R19.1", "expect": "fire",
+     "edits": [_BASE_CLASS_SPLIT[0],
+               (RUN, _CUT_AT, _SUBCLASS_HEAD +
+                "  def write_default_pyi(self):\n"
+                "    output = path_utils.join(self.imports_dir, 'default.pyi')\n"
+                "    with open(output, 'w') as f:\n"
+                "      f.write(DEFAULT_PYI)\n"
+                "    return self.imports_dir\n\n" + _CUT_AT)]},
+    # a non-local base could define the method: refuse, do not guess
+    {"name": "writer-methods-behind-a-foreign-base", "rule": "R19.1", "expect": "error",
+     "edits": [(RUN, "class PytypeRunner:\n", "class _BuildFilesWriter:\n"),
+               (RUN, _CUT_AT,
+                "class PytypeRunner(module_utils.Mixin, _BuildFilesWriter):\n"
+                "  \"\"\"Runs pytype over an import graph.\"\"\"\n\n" + _CUT_AT)]},
 ]
